@@ -357,12 +357,18 @@ type vkPScenario struct {
 	White   []string `json:"white"`
 	Prefill []string `json:"prefill"`
 	Threads []vkPOp  `json:"threads"`
+	// Fresh: a first start — the configured blocklist directory does not exist yet (sdns creates it itself,
+	// in the start-up refresh)
+	Fresh bool `json:"fresh,omitempty"`
 }
 
 func (s vkPScenario) String() string {
 	var t []string
 	for i, o := range s.Threads {
 		t = append(t, fmt.Sprintf("T%d=%v", i, o))
+	}
+	if s.Fresh {
+		return fmt.Sprintf("white=%v first-start(no directory yet) %s", s.White, strings.Join(t, " "))
 	}
 	return fmt.Sprintf("white=%v pre=%v %s", s.White, s.Prefill, strings.Join(t, " "))
 }
@@ -416,6 +422,10 @@ func vkPersistScenarioFn(sc vkPScenario, side *vkPSide) sched.Scenario {
 			panic("vk: " + err.Error())
 		}
 		vos.Plan = nil
+		top := dir
+		if sc.Fresh {
+			dir = filepath.Join(dir, "blocklists")
+		}
 		b := vkBuild(vkList{White: sc.White}, dir)
 		if len(sc.Prefill) > 0 {
 			b.SetBatch(sc.Prefill) // sequential, before the threads exist: writes the initial `local`
@@ -472,7 +482,7 @@ func vkPersistScenarioFn(sc vkPScenario, side *vkPSide) sched.Scenario {
 		}
 		return func() (string, string) {
 			vos.Plan = nil
-			defer os.RemoveAll(dir)
+			defer os.RemoveAll(top)
 			mem := vkMem(b)
 			outcome := fmt.Sprintf("mem=%v res=%v lastPersisted=%d/%d", mem, results, b.lastPersisted, b.version)
 			if !vkLinearizable(init, sc.White, sc.Threads, results, mem) {
